@@ -85,6 +85,7 @@ var t0 = time.Unix(1700000000, 0).UTC()
 // c02Canon (mode c02canon): a pristine child process executes the canonical
 // run of the case given on stdin and prints the result tuple.
 func c02Canon() {
+	simrt.SingleThreaded = true
 	scrubAddrs, noAddr = false, false
 	simrt.SimPools = true
 	var cs C02Case
